@@ -397,3 +397,46 @@ func (w *vWorld) dupKey(f *vFunc, t int) bool {
 	}
 	return false
 }
+
+// staticCycle reports whether a cycle among the accepted constructors visible
+// from scope s (every provider of a key in the scope chain counts, as in the
+// graph dig verifies) can be reached from params, whether or not some of the
+// constructors on it have already been built.
+func (w *vWorld) staticCycle(s int, params []*vParam) bool {
+	var nodes []*vReg
+	for _, r := range w.ctors(nil) {
+		if w.isAncestorOrSelf(r.home, s) {
+			nodes = append(nodes, r)
+		}
+	}
+	// reachable set
+	reach := make([]bool, len(nodes))
+	var mark func(i int)
+	mark = func(i int) {
+		if reach[i] {
+			return
+		}
+		reach[i] = true
+		for j := range nodes {
+			if vDepends(nodes[i], nodes[j]) {
+				mark(j)
+			}
+		}
+	}
+	for i, n := range nodes {
+		for _, p := range params {
+			for _, r := range n.f.results {
+				if r.hasKey(p.key()) {
+					mark(i)
+				}
+			}
+		}
+	}
+	var sub []*vReg
+	for i, n := range nodes {
+		if reach[i] {
+			sub = append(sub, n)
+		}
+	}
+	return vCyclic(sub, vDepends)
+}
